@@ -159,6 +159,14 @@ def _run_padder(case, ctx):
     exp = [[np.concatenate([cell, np.full(L - len(cell), float(fill))]) for cell in row] for row in data]
     _nested_eq(ctx, "padder", _cells(out), exp, "padder:not-padded-to-length-with-fill", "cells are not the series followed by the fill value up to the pad length",
                pad_length=pad_length, fill=fill, lens=lens)
+    # the pad length learned in fit also holds for another panel (here: every series one point shorter)
+    data2 = [[cell[:-1] if len(cell) > 1 else cell for cell in row] for row in data]
+    df2 = pd.DataFrame({c: [pd.Series(data2[i][j].copy()) for i in range(len(data2))] for j, c in enumerate(df.columns)})
+    ok2, out2 = ctx.call("padder:exception:other-panel", tr.transform, df2)
+    if ok2:
+        exp2 = [[np.concatenate([cell, np.full(L - len(cell), float(fill))]) for cell in row] for row in data2]
+        _nested_eq(ctx, "padder", _cells(out2), exp2, "padder:other-panel-not-padded-to-the-fitted-length", "a panel other than the fitted one is not padded to the length learned in fit",
+                   pad_length=pad_length, fitted_longest=mx)
     ctx.event(t="padder", lens=lens, pad_length=pad_length, fill=fill)
     ctx.nontrivial = case["ni"] >= 2 and len(set(lens)) > 1
 
@@ -184,6 +192,13 @@ def _run_truncation(case, ctx):
     exp = [[cell[lo:hi] for cell in row] for row in data]
     _nested_eq(ctx, "truncation", _cells(out), exp, "truncation:wrong-range", "cells are not truncated to the shortest length / requested range [lower, upper)",
                lower=lower, upper=upper, lens=lens)
+    # the bounds learned in fit also hold for another panel (here: every series two points longer)
+    data2 = [[np.concatenate([cell, cell[-2:] + 1.0]) for cell in row] for row in data]
+    df2 = pd.DataFrame({c: [pd.Series(data2[i][j].copy()) for i in range(len(data2))] for j, c in enumerate(df.columns)})
+    ok2, out2 = ctx.call("truncation:exception:other-panel", tr.transform, df2)
+    if ok2:
+        _nested_eq(ctx, "truncation", _cells(out2), [[cell[lo:hi] for cell in row] for row in data2], "truncation:other-panel-not-truncated-to-the-fitted-range",
+                   "a panel other than the fitted one is not truncated to the range learned in fit", lower=lower, upper=upper, fitted_shortest=mn)
     ctx.event(t="truncation", lens=lens, lower=lower, upper=upper)
     ctx.nontrivial = case["ni"] >= 2 and (len(set(lens)) > 1 or mode == 2)
 
